@@ -425,12 +425,63 @@ def run_clean(ctx) -> RuleResult:
     if not ok:
         result.add(Finding("R-CLEAN", module, "remove_redundant_names", assigns[0] if assigns else func,
                            f"the used-name mask is '{text}', expected numpy.any(exponents != 0, 0)"))
-    guard = [n for n in ast.walk(func) if isinstance(n, ast.If) and mask_var in U(n.test) and isinstance(n.test, ast.UnaryOp)]
-    ok = bool(guard) and any(isinstance(s, ast.Assign) and "True" in U(s) for s in guard[0].body)
-    result.ob("at least one indeterminate always survives", ok, module.loc(func), "")
-    if not ok:
+    # fall-back: one name is switched on exactly when no name is used.  Tri-state on the condition under which an element
+    # of the mask is set: 'no element of the mask is true' in any spelling is accepted, a condition over a slice of the
+    # mask or an all() over the mask is known-wrong, no fall-back at all is a violation, anything else is unrecognised
+    conds = []
+    for node in ast.walk(func):
+        if isinstance(node, ast.If):
+            for stmt in node.body:
+                if isinstance(stmt, ast.Assign) and isinstance(stmt.targets[0], ast.Subscript) \
+                        and U(stmt.targets[0].value) == mask_var and isinstance(stmt.value, ast.Constant) and stmt.value.value is True:
+                    conds.append((node.test, stmt))
+        if isinstance(node, ast.AugAssign) and isinstance(node.op, ast.BitOr) and isinstance(node.target, ast.Subscript) \
+                and U(node.target.value) == mask_var:
+            conds.append((node.value, node))
+        if isinstance(node, ast.Assign) and isinstance(node.targets[0], ast.Subscript) and U(node.targets[0].value) == mask_var \
+                and isinstance(node.value, (ast.BoolOp, ast.BinOp)):
+            parts = node.value.values if isinstance(node.value, ast.BoolOp) else [node.value.left, node.value.right]
+            rest = [p2 for p2 in parts if U(p2) != U(node.targets[0])]
+            if len(rest) == 1 and len(parts) == 2:
+                conds.append((rest[0], node))
+
+    def none_used(test) -> Optional[bool]:
+        neg = False
+        while isinstance(test, ast.UnaryOp) and isinstance(test.op, ast.Not):
+            test, neg = test.operand, not neg
+        if not isinstance(test, ast.Call):
+            return None
+        name = ctx.dotted(module, test.func) or ""
+        arg = test.args[0] if test.args else None
+        if arg is None:
+            return None
+        atext = U(arg)
+        whole = atext == mask_var
+        inverted = atext in (f"~{mask_var}", f"numpy.logical_not({mask_var})", f"numpy.invert({mask_var})")
+        if name in ("numpy.any", "numpy.sum", "numpy.count_nonzero") and whole:
+            return neg          # not any(mask)
+        if name == "numpy.all" and inverted:
+            return not neg      # all(~mask)
+        if name in ("numpy.any", "numpy.all", "numpy.sum", "numpy.count_nonzero") and mask_var in atext:
+            return False        # a slice of the mask, or all() over the mask: another condition
+        return None
+
+    if not conds:
+        result.ob("at least one indeterminate always survives", False, module.loc(func), "")
         result.add(Finding("R-CLEAN", module, "remove_redundant_names", func,
                            "no fall-back keeping one indeterminate when no exponent is used", construct="one-name fall-back"))
+    for test, stmt in conds:
+        verdict = none_used(test)
+        if verdict is None:
+            raise AnalysisError(f"remove_redundant_names: fall-back condition not recognised: {U(test)[:80]}")
+        result.ob("one indeterminate is switched on exactly when none is used", verdict, module.loc(stmt), U(test)[:80])
+        if not verdict:
+            result.add(Finding(
+                "R-CLEAN", module, "remove_redundant_names", stmt,
+                f"the fall-back that keeps one indeterminate is taken under '{U(test)[:80]}', which is not 'no name is used' "
+                f"(not numpy.any(mask)): with three or more names of which one - not the first - is used, a redundant name "
+                f"survives (or none does), so e.g. a differentiation variable given as a polynomial is no longer identified",
+                construct="one-name fall-back"))
     # isconstant
     imod = ctx.repo.module("numpoly.poly_function.isconstant")
     ifunc = ctx.repo.function(imod.name, "isconstant")
